@@ -8,6 +8,7 @@ use std::sync::Arc;
 use proptest::prelude::*;
 use saito_core::core::consensus::block::{Block, BlockType};
 use saito_core::core::consensus::blockchain::{VERIF_WIND_STEPS, VERIF_WIND_STEP_LIMIT};
+use saito_core::core::routing_thread::{VERIF_ID_WALK_LIMIT, VERIF_ID_WALK_STEPS};
 use saito_core::core::consensus::peers::peer::PeerStatus;
 use saito_core::core::consensus::transaction::Transaction;
 use saito_core::core::defs::*;
@@ -85,6 +86,10 @@ pub enum Payload {
 #[derive(Debug, Clone, Serialize, Deserialize, PartialEq, Eq, Hash)]
 pub struct Case {
     pub events: Vec<Ev>,
+    /// the node under test (and its twin) runs as a lite node (Configuration::is_spv_mode): it
+    /// follows ghost chains, does not serve chain requests, validates blocks in SPV mode
+    #[serde(default)]
+    pub lite: bool,
 }
 
 #[derive(Debug, Default)]
@@ -101,9 +106,9 @@ struct Twin {
     clock: Arc<AtomicU64>,
 }
 
-fn setup(clock: Arc<AtomicU64>, chain: &[Block]) -> NetNode {
+fn setup(clock: Arc<AtomicU64>, chain: &[Block], lite: bool) -> NetNode {
     let ncfg = NodeCfg { gp: 100, heartbeat: 100, social_stake: 0, loading_completed: true, prune: 8 };
-    let mut n = NetNode::new(0, ncfg, clock, 0, 4, MemIO::new());
+    let mut n = NetNode::new_with(0, ncfg, clock, 0, 4, MemIO::new(), lite);
     let _ = n.init();
     for b in chain {
         n.add_direct(b.clone());
@@ -135,14 +140,15 @@ pub fn run_case(case: &Case, prefix: &Built) -> (Vec<(String, String)>, Info) {
     let chain = prefix.main_chain_blocks();
     let clock = Arc::new(AtomicU64::new(6_000_000));
     let clock2 = Arc::new(AtomicU64::new(6_000_000));
-    let mut n = setup(clock.clone(), &chain);
-    let mut twin = Twin { n: setup(clock2.clone(), &chain), clock: clock2 };
+    let mut n = setup(clock.clone(), &chain, case.lite);
+    let mut twin = Twin { n: setup(clock2.clone(), &chain, case.lite), clock: clock2 };
     // a builder that follows the honest chain, to produce the honest peer's next blocks
     let mut builder = Node::new(n.cfg_ncfg(), 1);
     for b in &chain {
         block_on(builder.add(b.clone()));
     }
     VERIF_WIND_STEP_LIMIT.store(100_000, Ordering::SeqCst);
+    VERIF_ID_WALK_LIMIT.store(1_000_000, Ordering::SeqCst);
     let mut salt = 0u64;
     let mut honest_tx_sigs: BTreeSet<Vec<u8>> = BTreeSet::new();
 
@@ -150,6 +156,7 @@ pub fn run_case(case: &Case, prefix: &Built) -> (Vec<(String, String)>, Info) {
         ($node:expr, $what:expr, $via:expr, $hostile:expr, $e:expr) => {{
             info.handler_calls += 1;
             VERIF_WIND_STEPS.store(0, Ordering::SeqCst);
+            VERIF_ID_WALK_STEPS.store(0, Ordering::SeqCst);
             let o = $e;
             if let HandlerOutcome::Panicked(site, msg) = &o {
                 if $hostile {
@@ -160,6 +167,9 @@ pub fn run_case(case: &Case, prefix: &Built) -> (Vec<(String, String)>, Info) {
             }
             if VERIF_WIND_STEPS.load(Ordering::SeqCst) > 100_000 {
                 v.push((format!("C11|stalled|via={}", $via), format!("{}: block processing exceeded 100000 wind/unwind steps", $what)));
+            }
+            if VERIF_ID_WALK_STEPS.load(Ordering::SeqCst) > 1_000_000 {
+                v.push((format!("C11|stalled|walk_over_block_ids|via={}", $via), format!("{}: a handler walked over more than 1000000 block ids one by one (the block ring holds {}): a peer-supplied id bounds the loop (hook H2 stopped it)", $what, 200)));
             }
             let _ = &$node;
         }};
@@ -280,7 +290,7 @@ pub fn run_case(case: &Case, prefix: &Built) -> (Vec<(String, String)>, Info) {
                 if let (Some((b, _)), Payload::ShapeTx(_)) = (&bb, payload) {
                     // validity of a shaped block is not known in advance: if the node took it as its new
                     // tip, the builder and the twin receive the same block (from the honest peer)
-                    if v.is_empty() && n.tip().1 == b.hash {
+                    if v.is_empty() && !case.lite && n.tip().1 == b.hash {
                         let _ = block_on(builder.add(b.clone()));
                         let _ = twin.n.net_event(NetworkEvent::IncomingNetworkMessage { peer_index: HONEST, buffer: Message::BlockHeaderHash(b.hash, b.id).serialize() });
                         twin.n.take_fetches();
@@ -385,7 +395,10 @@ pub fn run_case(case: &Case, prefix: &Built) -> (Vec<(String, String)>, Info) {
             Ev::HonestBlock { with_txs } => {
                 info.honest_events += 1;
                 let (_, tip_hash) = builder.tip();
-                let tb = builder.chain.get_latest_block().unwrap().clone();
+                let tb = match builder.chain.get_latest_block() {
+                    Some(b) => b.clone(),
+                    None => continue,
+                };
                 let bs = BlockSpec {
                     parent: None,
                     dt: 250,
@@ -441,7 +454,10 @@ pub fn run_case(case: &Case, prefix: &Built) -> (Vec<(String, String)>, Info) {
         }
         // rejected input must not move the tip: checked after every event, so that a corrupted chain
         // index is reported before it can make a later handler run (practically) for ever
-        if v.is_empty() {
+        // (a lite node trusts the peer it syncs from by design - it follows ghost chains and validates
+        // blocks in SPV mode - so for lite nodes only the first half of the statement is judged:
+        // every handler returns)
+        if v.is_empty() && !case.lite {
             let (a, b) = (n.tip(), twin.n.tip());
             if a != b {
                 let via = serde_json::to_string(ev).unwrap_or_default();
@@ -464,12 +480,13 @@ pub fn run_case(case: &Case, prefix: &Built) -> (Vec<(String, String)>, Info) {
         }
     }
     VERIF_WIND_STEP_LIMIT.store(u64::MAX, Ordering::SeqCst);
+    VERIF_ID_WALK_LIMIT.store(u64::MAX, Ordering::SeqCst);
     if v.is_empty() {
         // collateral damage: compare with the twin that only saw the honest sub-sequence
         pump_all!(n, "final_pump", false);
         let _ = twin.n.pump();
         let a = honest_digest(&n);
-        let b = honest_digest(&twin.n);
+        let b = if case.lite { honest_digest(&n) } else { honest_digest(&twin.n) };
         if (a.0, a.1, a.2) != (b.0, b.1, b.2) {
             v.push(("C11|ledger_differs_from_honest_only_twin".into(), format!("after the sequence the node is at height {} ({}), a twin that saw only the honest traffic at height {} ({}); utxoset equal: {}", a.0, hx(&a.1), b.0, hx(&b.1), a.2 == b.2)));
         }
@@ -562,6 +579,9 @@ fn eval(c: &mut Ctx, case: &Case, prefix: &Built, counting: bool) -> Vec<(String
         if info.honest_blocks_accepted > 0 {
             c.class("honest_block_accepted_amid_hostile_traffic");
         }
+        if case.lite {
+            c.class("node_under_test_is_a_lite_node");
+        }
         if info.hostile_events > 3 && info.honest_blocks_accepted > 0 {
             c.sample_class("mix", json!({"case": case, "info": format!("{:?}", info)}));
         }
@@ -619,9 +639,9 @@ pub fn prefix() -> Built {
 }
 
 pub fn run(ctx: &mut Ctx) {
-    ctx.rule = "a node built from the real routing, verification, consensus and mining threads holding a 7-block chain, with an honest authenticated peer, a hostile authenticated peer and a hostile peer that never completed the handshake; generated sequences of 3..40 events: decodable messages of every tag from either hostile peer (generated with the C09 value generators: blocks, transactions, handshake messages, chain requests with arbitrary fork ids, ghost-chain records and requests, services, API messages, key lists), key-list floods past the rate limit, bogus block announcements whose fetch is answered with garbage / truncated / empty buffers, blocks for another hash, blocks with header lies, catalogue transactions or an in-block double spend, hostile catalogue transactions, undecodable bytes, connection events, interleaved with honest transactions and honest next blocks from the honest peer, timer ticks and explicit channel pumping. oracle: every handler invocation (network event, each internal channel event, timers) returns - a panic is a violation keyed by panic site and input kind; block processing stays under 1e5 wind/unwind steps (hook H1); differential: a twin node that receives only the honest sub-sequence ends with the same tip, utxoset, pooled honest transactions and honest-peer status. evaluations = handler invocations. non-trivial = sequence mixes hostile and honest events; distinct by case digest".into();
+    ctx.rule = "a node built from the real routing, verification, consensus and mining threads holding a 7-block chain, with an honest authenticated peer, a hostile authenticated peer and a hostile peer that never completed the handshake; generated sequences of 3..40 events: decodable messages of every tag from either hostile peer (generated with the C09 value generators: blocks, transactions, handshake messages, chain requests with arbitrary fork ids, ghost-chain records and requests, services, API messages, key lists), key-list floods past the rate limit, bogus block announcements whose fetch is answered with garbage / truncated / empty buffers, blocks for another hash, blocks with header lies, catalogue transactions or an in-block double spend, hostile catalogue transactions, undecodable bytes, connection events, interleaved with honest transactions and honest next blocks from the honest peer, timer ticks and explicit channel pumping. oracle: every handler invocation (network event, each internal channel event, timers) returns - a panic is a violation keyed by panic site and input kind; block processing stays under 1e5 wind/unwind steps (hook H1); differential: a twin node that receives only the honest sub-sequence ends with the same tip, utxoset, pooled honest transactions and honest-peer status. In one case of five the node under test is a lite (SPV) node; a lite node trusts its peer by design, so only the panic / step-bound oracle applies there. evaluations = handler invocations. non-trivial = sequence mixes hostile and honest events; distinct by case digest".into();
     let pre = prefix();
-    let strat = proptest::collection::vec(arb_ev(), 3..40).prop_map(|events| Case { events });
+    let strat = (proptest::collection::vec(arb_ev(), 3..40), prop_oneof![4 => Just(false), 1 => Just(true)]).prop_map(|(events, lite)| Case { events, lite });
     let cases = ctx.tier.pick(500u32, 20_000);
     pbt_run(ctx, "hostile_sequences", cases, strat, |c, case, counting| eval(c, case, &pre, counting));
 }
